@@ -184,6 +184,10 @@ def Online.queue (cfg : Cfg) (now : Nat) (o : Online) (data : Bytes) (vital : Bo
       | .error e => .error e
       | .ok p => .ok { o with packet := p, packetNonvital := pn }
 
+/-- the payload lengths `Connection::send` accepts (`TooLongData` otherwise) -/
+def Cfg.accepts (cfg : Cfg) (len : Nat) : Bool :=
+  !(decide (len > maxPayload) || (cfg.sendChecksLim && decide (len ≥ cfg.chunkLim)))
+
 inductive SendRes where
   | ok | tooLongData
 deriving Repr, DecidableEq
@@ -191,7 +195,7 @@ deriving Repr, DecidableEq
 /-- `Connection::send`, online part -/
 def Online.send (cfg : Cfg) (now : Nat) (o : Online) (data : Bytes) (vital : Bool) :
     Except Fail (Online × SendRes × List Flushed) :=
-  if data.length > maxPayload || (cfg.sendChecksLim && data.length ≥ cfg.chunkLim) then .ok (o, .tooLongData, [])
+  if !cfg.accepts data.length then .ok (o, .tooLongData, [])
   else
     let (o1, fl) := if !o.packet.canFit data.length vital then o.flush else (o, [])
     match o1.queue cfg now data vital with
@@ -213,14 +217,21 @@ def resendLoop (cfg : Cfg) (now : Nat) : List ResendChunk → Online → Timeout
     | .error e => .error e
     | .ok p => resendLoop cfg now rest { o1 with packet := p } send1 acc1
 
+/-- `ResendChunk::start_timeout` -/
+def ResendChunk.restart (now : Nat) (c : ResendChunk) : ResendChunk :=
+  { c with nextSend := Timeout.after now resendUs }
+
+/-- start of `Connection::resend`: the packet is rebuilt from the retained non-vital part, every
+unacknowledged chunk gets a fresh timer -/
+def Online.resendStart (now : Nat) (o : Online) : Online :=
+  { o with packet := o.packetNonvital, resendQueue := o.resendQueue.map (ResendChunk.restart now) }
+
 /-- `Connection::resend` -/
 def Online.resend (cfg : Cfg) (now : Nat) (o : Online) (send : Timeout) :
     Except Fail (Online × Timeout × List Flushed) :=
   if o.resendQueue.isEmpty then .ok (o, send, [])
   else
-    let rq := o.resendQueue.map fun c => { c with nextSend := Timeout.after now resendUs }
-    let o1 := { o with packet := o.packetNonvital, resendQueue := rq }
-    resendLoop cfg now rq.reverse o1 send []
+    resendLoop cfg now (o.resendStart now).resendQueue.reverse (o.resendStart now) send []
 
 /-! ### The loop before the repair (defect D4), kept for the witness theorem of C02
 
